@@ -157,7 +157,14 @@ pub fn seeds(cfg: &Cfg) -> Vec<Seed> {
     }
     if thorough {
         // depth-2 numeric expressions with one leaf operand, comparisons of a depth-1 expression with a leaf
-        for t in num_tys() {
+        // on i32, u8, f64 and two more numeric types picked by the seed
+        let all = num_tys();
+        let fixed = [Ty::Int(IntTy::I32), Ty::Int(IntTy::U8), Ty::F64];
+        let rest: Vec<Ty> = all.iter().filter(|t| !fixed.contains(t)).cloned().collect();
+        let mut chosen: Vec<Ty> = fixed.to_vec();
+        chosen.push(rest[(cfg.seed as usize) % rest.len()].clone());
+        chosen.push(rest[(cfg.seed as usize + 3) % rest.len()].clone());
+        for t in chosen {
             let lv = leaves(&t, &literals(&t, 1));
             for (i, e) in num_exprs_one_deep(&t, &lv).into_iter().enumerate() {
                 v.push(single(format!("num-d2/{}/{i}", t.print()), prog(&t, &t, e)));
